@@ -70,7 +70,7 @@ def _one_shape(args):
                 opens = [i for i in i2 if n2[i]['sess'] == 'open']
                 done_all = True
                 nseq = 0
-                t_sys = time.time()
+                t_sys = time.process_time()
                 for k, i in enumerate(opens):
                     share = sys_budget * (k + 1) / len(opens)
                     cnt, done = d.run_systematic(sys_depth, t_sys + share, i)
